@@ -334,7 +334,7 @@ def project_coverage(prop, tier, stats, nruns, other, samples, pstats, wall, kno
         "prestate_cells": stats.get("prestate_cells", {}),
         "probes": {k: stats.get(k, 0) for k in ("r3_checked", "r4_checked", "a2_checked", "c11_checked", "sp_checked", "twin_checks", "gen_ops",
                                                 "stray_after_kill_tolerated", "stdout_lines_unrecognised", "a3_checked", "a3_skipped_lossy_in_memory",
-                                                "c11_body_carried_checked", "intermediate_complete_state_accepted", "swallowed_faults_checked")},
+                                                "c11_body_carried_checked", "intermediate_complete_state_accepted", "swallowed_faults_checked", "a2_prose_checked")},
         "a3_interface_checks": stats.get("a3", {}),
         "distinct_project_states_reached": len(stats.get("_states", ())),
         "reach_probes": stats.get("reach", {}),
